@@ -66,6 +66,10 @@ func (b *Body) appendItemNode(nn *node) *node {
 // Clear removes all of the items from the body, making it empty.
 func (b *Body) Clear() {
 	b.children.Clear()
+	// The removed attributes and blocks must also leave the index of items,
+	// or a later SetAttribute* call finds the detached attribute by name and
+	// updates it instead of adding a new one to the body.
+	b.items.Clear()
 }
 
 func (b *Body) AppendUnstructuredTokens(ts Tokens) {
